@@ -186,7 +186,14 @@ func checkC29(h *hx.H, c layCase) {
 		}
 		in := func(x, y float64, what string) {
 			if x < float64(tl.X)-1 || x > float64(br.X)+1 || y < float64(tl.Y)-1 || y > float64(br.Y)+1 {
-				h.FailSoft(c29sig(c, "outside-bounding-box:"+strings.SplitN(what, " ", 2)[0]), "%s (%s): %s at (%.1f,%.1f) lies outside the reported bounding box (%d,%d)-(%d,%d)\n%s", bp, c.Engine, what, x, y, tl.X, tl.Y, br.X, br.Y, c.Text)
+				over := math.Max(math.Max(float64(tl.X)-x, x-float64(br.X)), math.Max(float64(tl.Y)-y, y-float64(br.Y)))
+				kind := strings.SplitN(what, " ", 2)[0]
+				if kind == "outside-icon" && over > label.PADDING+1.5 {
+					// the listed finding is the label padding (5 px) missing on one axis; an icon
+					// further out than that is something else
+					kind = "outside-icon-far"
+				}
+				h.FailSoft(c29sig(c, "outside-bounding-box:"+kind), "%s (%s): %s at (%.1f,%.1f) lies outside the reported bounding box (%d,%d)-(%d,%d)\n%s", bp, c.Engine, what, x, y, tl.X, tl.Y, br.X, br.Y, c.Text)
 			}
 		}
 		for _, s := range bd.Shapes {
